@@ -193,6 +193,18 @@ func scalePass(cfg Config, mons map[string]bool, n int, scenario string) *Stats 
 			h = append(h, Op{Code: opMaintain}, push(0, "eoe"), Op{Code: opClose})
 			return h
 		})
+	case "old-object":
+		// (n) an object that is n SECONDS old (a day, a month, years: the virtual clock is advanced before the first push):
+		// deadlines are kept at full resolution whatever the age - with a timeout of 4 ticks an event is neither released by
+		// a Maintain 1 or 3 ticks after its first record nor kept by one 5 ticks after it
+		mk("clock advanced by n seconds; events created 7 ticks apart, Maintain 1, 3 and 5 ticks after each; Close", func() []Op {
+			h := []Op{{Code: opTick, Delta: n * 1000}}
+			for i := 0; i < 12; i++ {
+				h = append(h, push(i, "mid"), Op{Code: opTick, Delta: 1}, Op{Code: opMaintain}, Op{Code: opTick, Delta: 2}, Op{Code: opMaintain},
+					Op{Code: opTick, Delta: 2}, Op{Code: opMaintain}, Op{Code: opTick, Delta: 2})
+			}
+			return append(h, Op{Code: opClose})
+		})
 	case "terminator-at":
 		// (m) the terminating record is exactly the n-th record of its event (n-1 records before it): the event is complete
 		// and leaves in that call, wherever the position falls (positions kept in narrow integers wrap at 2^8 / 2^16)
@@ -483,6 +495,9 @@ func buildJobs(prop, tier string) []interface{} {
 		for _, n := range []int{w - 1, w, w + 1, 2 * w, 3*w + 1} {
 			jobs = append(jobs, Job{Mode: "scale", Scenario: "terminator-at", N: n, Cfg: Config{MaxInFlight: 3, TimeoutTicks: farTimeout, Base: 5, Offsets: []uint32{0}, Kinds: []string{"mid"}, MaxRecs: 1 << 20, PostClose: 1}})
 		}
+	}
+	for _, age := range []int{3600, 86400, 30 * 86400, 1 << 26, 1<<26 + 7, 1 << 28, 1 << 30, 1 << 31} {
+		jobs = append(jobs, Job{Mode: "scale", Scenario: "old-object", N: age, Cfg: Config{MaxInFlight: 3, TimeoutTicks: 4, Base: 5, Offsets: []uint32{0}, Kinds: []string{"mid"}, MaxRecs: 3, PostClose: 1}})
 	}
 	jobs = append(jobs, Job{Mode: "scale", Scenario: "records-sweep", N: 1100, Cfg: Config{MaxInFlight: 2, TimeoutTicks: 2, Base: 5, Offsets: []uint32{0}, Kinds: []string{"mid"}, MaxRecs: 1 << 20, PostClose: 1}})
 	jobs = append(jobs, Job{Mode: "scale", Scenario: "below-head", N: 3000, Cfg: Config{MaxInFlight: 5000, TimeoutTicks: farTimeout, Base: 1<<32 - 2000, Offsets: []uint32{0}, Kinds: []string{"mid"}, MaxRecs: 3, PostClose: 1}})
